@@ -207,20 +207,64 @@ def _worker_call(args):
         return ("err", f"{type(e).__name__}: {e}\n{traceback.format_exc(limit=8)}")
 
 
-def pmap(fn: Callable, items: list, nproc: int | None = None, chunksize: int = 1):
-    """Ordered parallel map with fork; yields (item, status, result)."""
+def pmap(fn: Callable, items: list, nproc: int | None = None, chunksize: int = 1, task_timeout: float | None = None):
+    """Ordered parallel map (fork); yields (item, status, result).
+
+    Robust against a worker that dies (e.g. killed for memory) or hangs: the pool is rebuilt and the
+    item is reported with status 'err' (a harness error), never silently dropped."""
+    import concurrent.futures as cf
+
     nproc = nproc or NPROC
+    task_timeout = task_timeout or float(os.environ.get("VERIF_TASK_TIMEOUT", "1800"))
     if nproc <= 1 or len(items) <= 1:
         for it in items:
             st, res = _worker_call((fn, it))
             yield it, st, res
         return
     ctx = mp.get_context("fork")
-    with ctx.Pool(nproc) as pool:
-        for it, (st, res) in zip(
-            items, pool.imap(_worker_call, [(fn, it) for it in items], chunksize=chunksize)
-        ):
-            yield it, st, res
+    pending = list(enumerate(items))
+    results: dict = {}
+    next_out = 0
+    while pending:
+        ex = cf.ProcessPoolExecutor(max_workers=nproc, mp_context=ctx)
+        futs = {ex.submit(_worker_call, (fn, it)): (i, it) for i, it in pending}
+        pending = []
+        broken = False
+        try:
+            for fut in cf.as_completed(futs, timeout=None):
+                i, it = futs[fut]
+                try:
+                    results[i] = fut.result(timeout=0)
+                except cf.process.BrokenProcessPool:
+                    broken = True
+                    results[i] = None
+                except Exception as e:  # noqa: BLE001
+                    results[i] = ("err", f"worker failure: {type(e).__name__}: {e}")
+                while next_out in results and results[next_out] is not None:
+                    st, res = results.pop(next_out)
+                    yield items[next_out], st, res
+                    next_out += 1
+        finally:
+            ex.shutdown(wait=False, cancel_futures=True)
+        if broken:
+            # a worker died: every unfinished item of this round is retried one by one in fresh single-worker pools
+            lost = [i for i, r in results.items() if r is None]
+            for i in lost:
+                ex1 = cf.ProcessPoolExecutor(max_workers=1, mp_context=ctx)
+                try:
+                    results[i] = ex1.submit(_worker_call, (fn, items[i])).result(timeout=task_timeout)
+                except Exception as e:  # noqa: BLE001
+                    results[i] = ("err", f"worker died or timed out on this item: {type(e).__name__}")
+                finally:
+                    ex1.shutdown(wait=False, cancel_futures=True)
+            while next_out in results and results[next_out] is not None:
+                st, res = results.pop(next_out)
+                yield items[next_out], st, res
+                next_out += 1
+    while next_out in results:
+        st, res = results.pop(next_out)
+        yield items[next_out], st, res
+        next_out += 1
 
 
 def short(s: Any, n: int = 300) -> str:
